@@ -37,9 +37,9 @@ func runC07Live(c *mon.Case) {
 	k := c.Idx / 40
 	dirC2S := rng.Intn(2) == 0
 	target := []int{0, 1, 2, 3, 4, 5, 6, 8}[k%8]
-	mode := (k / 8) % 4
+	mode := (k / 8) % 6
 	if c.Tier != "thorough" {
-		mode = rng.Intn(4)
+		mode = rng.Intn(6)
 	}
 
 	// the hostile replacement
@@ -70,6 +70,9 @@ func runC07Live(c *mon.Case) {
 		a := alts[rng.Intn(len(alts))]
 		repl = func(pkt []byte) []byte { return a }
 		desc = fmt.Sprintf("gbn packet %x", a)
+	case 4, 5: // replay of an earlier message of the same direction / reflection of one of the opposite direction
+		// (filled in by the relay hook below, which keeps the payloads it has seen)
+		desc = map[int]string{4: "replay of an earlier payload of this direction", 5: "reflection of a payload of the opposite direction"}[mode]
 	default: // flags of the packet changed (final-chunk / ping), payload kept
 		fl := [][2]byte{{0, 0}, {1, 1}, {0, 1}, {2, 0}, {255, 255}}[rng.Intn(5)]
 		repl = func(pkt []byte) []byte { q := append([]byte{}, pkt...); q[2], q[3] = fl[0], fl[1]; return q }
@@ -85,17 +88,36 @@ func runC07Live(c *mon.Case) {
 	// GetSID: the stream named sid itself carries server -> client, the one
 	// with the last bit flipped client -> server.
 	clientBox := fmt.Sprintf("%x", sid[:])
+	var hmu sync.Mutex
+	var sameDir, otherDir [][]byte // payloads of data packets seen so far
 	relay.Rewrite = func(stream string, n int, msg []byte) []byte {
 		toServer := stream != clientBox
-		if toServer != dirC2S {
-			return msg
-		}
 		// data packets that are not keepalive pings
 		if len(msg) < 4 || msg[0] != sim.TData || msg[3] != 0 {
 			return msg
 		}
+		hmu.Lock()
+		defer hmu.Unlock()
+		if toServer != dirC2S {
+			otherDir = append(otherDir, append([]byte{}, msg[4:]...))
+			return msg
+		}
+		mine := append([]byte{}, msg[4:]...)
+		defer func() { sameDir = append(sameDir, mine) }()
 		if int(seen.Add(1))-1 != target || rewritten.Load() > 0 {
 			return msg
+		}
+		switch mode {
+		case 4, 5:
+			pool := sameDir
+			if mode == 5 {
+				pool = otherDir
+			}
+			if len(pool) == 0 {
+				return msg // nothing to replay yet: this session rewrites nothing
+			}
+			rewritten.Add(1)
+			return append(append([]byte{}, msg[:4]...), pool[len(pool)-1-int(seen.Load())%len(pool)]...)
 		}
 		rewritten.Add(1)
 		return repl(msg)
